@@ -13,6 +13,7 @@ import (
 	"lunar/engine/utils"
 	context_manager "lunar/toolkit-core/context-manager"
 	"lunar/toolkit-core/otel"
+	"lunar/toolkit-core/verifhook"
 	"reflect"
 
 	"github.com/negasus/haproxy-spoe-go/action"
@@ -60,6 +61,7 @@ func Handler(data *HandlingDataManager) MessageHandler {
 				return
 			}
 		}
+		verifhook.Point("spoe.reply")
 		req.Actions = actions
 	}
 
